@@ -615,6 +615,25 @@ func (x *Exec) effectsOf(nodes []ast.Node, st *St, fr *Frame, tainted map[*types
 					}
 				case *ast.CallExpr:
 					x.callEffect(s, f, st, depth, bind, pureLoc, addLoc, scan)
+				case *ast.UnaryExpr:
+					// ghost variables updated by the receiver ("receives") of the protocol of the channel received from
+					if s.Op == token.ARROW && depth == 0 {
+						root := ast.Unparen(s.X)
+						if ix, ok := root.(*ast.IndexExpr); ok {
+							root = ast.Unparen(ix.X)
+						}
+						if id, ok := root.(*ast.Ident); ok {
+							if cd := x.carryDecl(f, id.Name); cd != nil {
+								if cc := x.W.CS.ByKey["chan."+cd.Proto]; cc != nil {
+									for _, r := range cc.Receives {
+										if g, ok := x.W.GhostVars[r.Var]; ok {
+											addLoc(g.Key, nil)
+										}
+									}
+								}
+							}
+						}
+					}
 				case *ast.SendStmt:
 					// ghost variables recorded by the protocol of the channel sent on
 					if id, ok := ast.Unparen(s.Chan).(*ast.Ident); ok && depth == 0 {
@@ -969,8 +988,12 @@ func (x *Exec) loopHavoc(st *St, fr *Frame, nodes []ast.Node, key string) {
 func (x *Exec) loopContract(fr *Frame, s ast.Stmt) (*Contract, string) {
 	ord := fr.fi.Loops[s]
 	key := fmt.Sprintf("%s#%d", fr.fi.Key, ord)
-	if c, ok := x.W.CS.ByKey[key]; ok {
+	if c, ok := x.W.CS.ByKey[key]; ok && c.Kind == "loop" {
 		return c, key
+	}
+	// where loop n and function literal n of one function would share a key, the loop is written F#loop<n>
+	if c, ok := x.W.CS.ByKey[fmt.Sprintf("%s#loop%d", fr.fi.Key, ord)]; ok && c.Kind == "loop" {
+		return c, c.Key
 	}
 	if i := strings.Index(fr.fi.Key, "["); i >= 0 && x.inst != "" {
 		// loop of a generic function (or of a closure in it): the template contract carries $T
